@@ -783,8 +783,45 @@ func ruleHdrMustDecode(p *Prog, r *Out) {
 	}
 }
 
+// recvAccounting: the functions that account received octets against owner's
+// connection receive window: those that store owner.currentWindow as old - x,
+// and those that call one of them unconditionally (top-level statement).
+func (p *Prog) recvAccounting(owner string) map[string]bool {
+	out := map[string]bool{}
+	for _, st := range p.storesTo(owner, "currentWindow") {
+		if b, ok := stripConv(st.Store.Val).(*ssa.BinOp); ok && b.Op == token.SUB {
+			if _, o, n, ok := p.loadOfField(stripConv(b.X)); ok && o == owner && n == "currentWindow" {
+				out[p.fname(st.Fn)] = true
+			}
+		}
+	}
+	for round := 0; round < 2; round++ {
+		for name, fd := range p.funcDecls {
+			if out[name] || fd.Body == nil {
+				continue
+			}
+			for _, s := range fd.Body.List {
+				if es, ok := s.(*ast.ExprStmt); ok {
+					if c, ok := es.X.(*ast.CallExpr); ok && out[p.calleeOf(c)] {
+						out[name] = true
+					}
+				}
+			}
+		}
+	}
+	return out
+}
+
 func ruleDataMustCredit(p *Prog, r *Out) {
 	kinds := uint16(1 << 0)
+	srvAcc := p.recvAccounting("serverConn")
+	cliAcc := p.recvAccounting("Conn")
+	isAcc := func(m map[string]bool) func(ssa.Instruction) bool {
+		return func(in ssa.Instruction) bool {
+			c, ok := in.(ssa.CallInstruction)
+			return ok && m[p.calleeName(c.Common())]
+		}
+	}
 	what := "has not been accounted against the connection receive window: those bytes are never credited back, and after enough of them the peer's connection window is exhausted for good"
 	fn, fr, entry, head := p.streamLoopRegion()
 	if fn == nil || fr == nil || head == nil {
@@ -792,7 +829,9 @@ func ruleDataMustCredit(p *Prog, r *Out) {
 	} else {
 		r.fn("(*serverConn).handleStreams", "(*serverConn).handleFrame")
 		vs := p.runOPA(opaSpec{fn: fn, entry: entry, fr: fr, kinds: kinds, loopHead: head,
-			discharge: func(in ssa.Instruction) bool { return p.isCallTo(in, "(*serverConn).handleFrame") },
+			discharge: func(in ssa.Instruction) bool {
+				return p.isCallTo(in, "(*serverConn).handleFrame") || isAcc(srvAcc)(in)
+			},
 			terminate: p.terminatesConn,
 			returnOK:  func(*ssa.Return) bool { return true },
 		})
@@ -808,7 +847,7 @@ func ruleDataMustCredit(p *Prog, r *Out) {
 				}
 			}
 			vs := p.runOPA(opaSpec{fn: f, fr: frp, kinds: kinds,
-				discharge: func(in ssa.Instruction) bool { return p.isCallTo(in, "(*serverConn).consumeRecvWindow") },
+				discharge: isAcc(srvAcc),
 				terminate: p.terminatesConn,
 				returnOK:  p.goAwayReturn,
 			})
@@ -832,8 +871,10 @@ func ruleDataMustCredit(p *Prog, r *Out) {
 		}
 	}
 	vs := p.runOPA(opaSpec{fn: f, fr: frp, kinds: kinds,
-		discharge: func(in ssa.Instruction) bool { return p.isCallTo(in, "(*Conn).readStream") },
-		returnOK:  func(*ssa.Return) bool { return false },
+		discharge: func(in ssa.Instruction) bool {
+			return p.isCallTo(in, "(*Conn).readStream") || isAcc(cliAcc)(in)
+		},
+		returnOK: func(*ssa.Return) bool { return false },
 	})
 	r.reportOPA(p, "client dispatch", vs, what)
 	if len(vs) == 0 {
@@ -849,7 +890,7 @@ func ruleDataMustCredit(p *Prog, r *Out) {
 		vs := p.runOPA(opaSpec{fn: rs, fr: frp, kinds: kinds,
 			discharge: func(in ssa.Instruction) bool {
 				st, ok := in.(*ssa.Store)
-				return ok && p.fieldAddrIs(st.Addr, "Conn", "currentWindow")
+				return (ok && p.fieldAddrIs(st.Addr, "Conn", "currentWindow")) || isAcc(cliAcc)(in)
 			},
 			returnOK: func(*ssa.Return) bool { return false },
 		})
@@ -862,98 +903,143 @@ func ruleDataMustCredit(p *Prog, r *Out) {
 
 // ---------------------------------------------------------------- receive refill
 
-func ruleRecvWindowRefill(p *Prog, r *Out) {
-	type spec struct {
-		fn, recv, lenExpr, emitter string
+// frameLenAmount: is expression a (inside function fd) the received frame's
+// length? Either fr.Len() itself, or an int parameter of fd that every call
+// site fills with a frame length (followed up to three levels).
+func (p *Prog) frameLenAmount(fd *ast.FuncDecl, a ast.Expr, depth int) bool {
+	a = p.stripConvAST(a)
+	if c, ok := a.(*ast.CallExpr); ok && p.calleeOf(c) == "(*FrameHeader).Len" {
+		return true
 	}
-	for _, s := range []spec{
-		{"(*serverConn).consumeRecvWindow", "sc", "n", "(*serverConn).writeWindowUpdate"},
-		{"(*Conn).readStream", "c", "fr.Len()", "(*Conn).updateWindow"},
-	} {
-		fd := p.decl(s.fn)
-		if fd == nil {
-			r.undecided(s.fn, "?", "no longer resolves")
-			continue
+	id, ok := a.(*ast.Ident)
+	if !ok || depth == 0 || fd == nil {
+		return false
+	}
+	idx, k := -1, 0
+	for _, f := range fd.Type.Params.List {
+		for _, n := range f.Names {
+			if n.Name == id.Name {
+				idx = k
+			}
+			k++
 		}
-		r.fn(s.fn)
-		cur, max := s.recv+".currentWindow", s.recv+".maxWindow"
-		debit := false
-		ast.Inspect(fd.Body, func(n ast.Node) bool {
-			if as, ok := n.(*ast.AssignStmt); ok && as.Tok == token.SUB_ASSIGN && len(as.Lhs) == 1 && p.text(as.Lhs[0]) == cur && p.ubKey(as.Rhs[0]) == s.lenExpr {
-				debit = true
+	}
+	if idx < 0 {
+		return false
+	}
+	name := declName(fd)
+	sites := 0
+	all := true
+	for _, f := range p.Files {
+		pm := p.parentMaps()[f]
+		inspectCalls(f, func(c *ast.CallExpr) {
+			if p.calleeOf(c) != name || idx >= len(c.Args) {
+				return
 			}
-			return true
+			sites++
+			if !p.frameLenAmount(p.decl(enclosingFunc(pm, c)), c.Args[idx], depth-1) {
+				all = false
+			}
 		})
-		r.check(debit, s.fn+" debits frame length", p.pos(fd.Pos()), cur+" -= "+s.lenExpr, fmt.Sprintf("%s no longer debits %s by the frame length %s (padding included, RFC 7540 s6.9.1): the receiver's ledger and the sender's diverge", s.fn, cur, s.lenExpr))
-		subst := singleDefs(fd.Body)
-		refill := false
-		ast.Inspect(fd.Body, func(n ast.Node) bool {
-			ifs, ok := n.(*ast.IfStmt)
-			if !ok {
-				return true
-			}
-			c, ok := p.canonCmp(ifs.Cond, subst)
-			if !ok || c.Op != "le" {
-				return true
-			}
-			// current < max/2  => current - max/2 + 1 <= 0
-			if !(c.L.T[cur] == 1 && c.L.T[max+" / 2"] == -1 && c.L.C == 1) {
-				return true
-			}
-			s2 := singleDefs(ifs.Body)
-			for k, v := range subst {
-				s2[k] = v
-			}
-			reset, send := false, false
-			for _, st := range ifs.Body.List {
-				if as, ok := st.(*ast.AssignStmt); ok && len(as.Lhs) == 1 && p.text(as.Lhs[0]) == cur && p.text(as.Rhs[0]) == max {
-					reset = true
+	}
+	return sites > 0 && all
+}
+
+func ruleRecvWindowRefill(p *Prog, r *Out) {
+	emitters := map[string]bool{"(*serverConn).writeWindowUpdate": true, "(*Conn).updateWindow": true}
+	for _, owner := range []string{"serverConn", "Conn"} {
+		n := 0
+		for _, f := range p.Files {
+			pm := p.parentMaps()[f]
+			ast.Inspect(f, func(x ast.Node) bool {
+				as, ok := x.(*ast.AssignStmt)
+				if !ok || len(as.Lhs) != 1 || !p.isFieldSel(as.Lhs[0], owner, "currentWindow") {
+					return true
 				}
-			}
-			inspectCalls(ifs.Body, func(cl *ast.CallExpr) {
-				if p.calleeOf(cl) == s.emitter && len(cl.Args) == 2 {
-					if v, ok := p.intConst(cl.Args[0]); ok && v == 0 {
-						inc := p.linOf(cl.Args[1], s2)
-						if inc.eq(Lin{T: map[string]int64{max: 1, cur: -1}}) {
-							send = true
+				if as.Tok != token.SUB_ASSIGN {
+					return true
+				}
+				n++
+				fn := enclosingFunc(pm, as)
+				fd := p.decl(fn)
+				r.fn(fn)
+				cur := p.text(as.Lhs[0])
+				max := strings.TrimSuffix(cur, "currentWindow") + "maxWindow"
+				r.check(p.frameLenAmount(fd, as.Rhs[0], 3), fn+" debits the frame length", p.pos(as.Pos()), cur+" -= frame length",
+					fmt.Sprintf("%s debits %s by `%s`, which is not the received frame's length (fr.Len(), padding included, RFC 7540 s6.9.1) at every call site: the receiver's ledger and the sender's diverge", fn, cur, p.text(as.Rhs[0])))
+				// the refill that follows in the same function
+				subst := singleDefs(fd.Body)
+				refill := false
+				ast.Inspect(fd.Body, func(m ast.Node) bool {
+					ifs, ok := m.(*ast.IfStmt)
+					if !ok || ifs.Pos() < as.Pos() {
+						return true
+					}
+					c, ok := p.canonCmp(ifs.Cond, subst)
+					if !ok || c.Op != "le" {
+						return true
+					}
+					if !(c.L.T[cur] == 1 && c.L.T[max+" / 2"] == -1 && c.L.C == 1) {
+						return true
+					}
+					s2 := singleDefs(ifs.Body)
+					for k, v := range subst {
+						s2[k] = v
+					}
+					reset, send := false, false
+					for _, st := range ifs.Body.List {
+						if a2, ok := st.(*ast.AssignStmt); ok && len(a2.Lhs) == 1 && p.text(a2.Lhs[0]) == cur && p.text(a2.Rhs[0]) == max {
+							reset = true
 						}
 					}
-				}
+					inspectCalls(ifs.Body, func(cl *ast.CallExpr) {
+						if emitters[p.calleeOf(cl)] && len(cl.Args) == 2 {
+							if v, ok := p.intConst(cl.Args[0]); ok && v == 0 {
+								if p.linOf(cl.Args[1], s2).eq(Lin{T: map[string]int64{max: 1, cur: -1}}) {
+									send = true
+								}
+							}
+						}
+					})
+					if reset && send {
+						refill = true
+					}
+					return true
+				})
+				r.check(refill, fn+" refills to max", p.pos(as.Pos()), "below max/2: WINDOW_UPDATE(0, max-current); current = max",
+					fmt.Sprintf("%s: after the debit, below half the maximum the connection WINDOW_UPDATE is not exactly (max - current) with current then reset to max on the same path: the peer is granted more or less than the receiver books", fn))
+				return true
 			})
-			if reset && send {
-				refill = true
-			}
-			return true
-		})
-		r.check(refill, s.fn+" refills to max", p.pos(fd.Pos()), "below max/2: WINDOW_UPDATE(0, max-current); current = max", fmt.Sprintf("%s: below half the maximum the connection WINDOW_UPDATE is not exactly (max - current) with current then reset to max on the same path: the peer is granted more or less than the receiver books", s.fn))
+		}
+		if n == 0 {
+			r.bad(owner+" debits its receive window", "?", "no function debits "+owner+".currentWindow: received DATA is never accounted against the connection receive window")
+		}
 	}
 	// stream-level credit equals the frame length
-	for _, s := range []struct{ fn, emitter, want string }{
-		{"(*serverConn).consumeRecvWindow", "(*serverConn).writeWindowUpdate", "n"},
-		{"(*Conn).readStream", "(*Conn).updateWindow", "fr.Len()"},
-	} {
-		fd := p.decl(s.fn)
-		if fd == nil {
-			continue
-		}
-		found := false
-		inspectCalls(fd.Body, func(c *ast.CallExpr) {
-			if p.calleeOf(c) == s.emitter && len(c.Args) == 2 {
-				if _, isConst := p.intConst(c.Args[0]); !isConst {
-					found = true
-					r.check(p.ubKey(c.Args[1]) == s.want, s.fn+" stream credit amount", p.pos(c.Pos()), "credit = frame length", fmt.Sprintf("%s credits the stream with %s, not the frame length %s", s.fn, p.text(c.Args[1]), s.want))
-				}
+	found := map[string]bool{}
+	for _, f := range p.Files {
+		pm := p.parentMaps()[f]
+		inspectCalls(f, func(c *ast.CallExpr) {
+			name := p.calleeOf(c)
+			if !emitters[name] || len(c.Args) != 2 {
+				return
 			}
+			if _, isConst := p.intConst(c.Args[0]); isConst {
+				return
+			}
+			fn := enclosingFunc(pm, c)
+			role := "server"
+			if strings.HasPrefix(name, "(*Conn)") {
+				role = "client"
+			}
+			found[role] = true
+			r.check(p.frameLenAmount(p.decl(fn), c.Args[1], 3), fn+" stream credit amount", p.pos(c.Pos()), "credit = frame length",
+				fmt.Sprintf("%s credits the stream with `%s`, which is not the received frame's length at every call site", fn, p.text(c.Args[1])))
 		})
-		if !found {
-			r.bad(s.fn+" stream credit amount", p.pos(fd.Pos()), s.fn+" never returns stream-level credit")
-		}
 	}
-	// consumeRecvWindow is given the frame length
-	for _, cs := range p.callsTo("(*serverConn).consumeRecvWindow") {
-		if len(cs.Common.Args) == 4 {
-			d := p.vdescN(cs.Common.Args[3], 3)
-			r.check(strings.HasPrefix(d, "(*FrameHeader).Len("), "consumeRecvWindow called with fr.Len()", p.ipos(cs.Instr), d, "consumeRecvWindow is called with "+d+" instead of the frame length: padding octets are not accounted (RFC 7540 s6.9.1)")
+	for _, role := range []string{"server", "client"} {
+		if !found[role] {
+			r.bad(role+" stream credit amount", "?", "the "+role+" never returns stream-level credit")
 		}
 	}
 }
